@@ -548,7 +548,9 @@ def check_C16():
             target = "deferred-" + ("v1" if o["v1"] else "v2")
         elif o["sid"] >= 100:      # blockstore.ReadWrite on a real file (which, unlike an io.WriterAt, can be truncated)
             target = "blockstore-" + ("v1" if o["v1"] else "v2")
-        if not o["errret"]:
+        if o.get("reopened"):
+            sym = "usable-after-failed-close"
+        elif not o["errret"]:
             sym = "error-swallowed"
         elif o["visible"]:
             sym = "failed-block-visible"
